@@ -246,24 +246,6 @@ end Stk
 namespace LL
 open MgModel.C11.LL
 
-theorem handleOk_iff {l : Spec} {n : Option Ref} :
-    handleOk l n = true ↔ ∀ r, n = some r → r ∈ ids l := by
-  cases n with
-  | none => simp [handleOk]
-  | some r => simp [handleOk, ids]
-
-theorem length_insBefore_le (n : Ref) (x : Ref × Val) (l : Spec) :
-    (insBefore n x l).length ≤ l.length + 1 := by
-  induction l with
-  | nil => simp [insBefore]
-  | cons a l ih => simp only [insBefore]; split <;> simp <;> omega
-
-theorem length_insAfter_le (n : Ref) (x : Ref × Val) (l : Spec) :
-    (insAfter n x l).length ≤ l.length + 1 := by
-  induction l with
-  | nil => simp [insAfter]
-  | cons a l ih => simp only [insAfter]; split <;> simp <;> omega
-
 /-- **Linked list, one call.** Whenever the reference side is defined (every handle
 passed is an element of the sequence), the call succeeds on the heap model — no
 NULL / freed-node dereference — and returns the reference answer; the new handle
@@ -405,17 +387,6 @@ theorem run_refines (ops : List Op) : ∀ {s : LL} {l : Spec} {k : Nat} {l' : Sp
         obtain ⟨s2, hs2, inv2, hk2⟩ := ih inv1 hk1 (by omega) h2
         exact ⟨s2, by simp [run, hs1, hs2, bind, Except.bind, pure, Except.pure], inv2, hk2⟩
 
-theorem inv_init {c : Nat} {s : LL} (h : init c = some s) : Inv s [] ∧ s.mem.cells.length = 0 := by
-  have hm : MInv emptyMem [] := by
-    refine ⟨⟨by simp [path, ids], ?_⟩, by simp⟩
-    simp [path, ids, Link.Links, nxt, prv, DMem.get, emptyMem]
-  unfold init at h
-  split at h
-  · split at h
-    · simp at h
-    · injection h with h; subst h; exact ⟨⟨hm, rfl, by simp⟩, rfl⟩
-  · injection h with h; subst h; exact ⟨⟨hm, rfl, by simp⟩, rfl⟩
-
 /-- **C11, linked list.** A list created by `muggle_linked_list_init` — with a node
 pool (`capacity > 0`) or without (`capacity = 0`) — behaves as the empty reference
 sequence under every history of insert-before / append-after / remove / next /
@@ -495,18 +466,6 @@ theorem run_refines (ops : List Op) : ∀ {s : Queue} {l : Spec}, Inv s l →
     exact ⟨s2, by simp [run, specRun, h1, h2, bind, Except.bind, pure, Except.pure], by
       simpa [specRun] using inv2⟩
 
-theorem inv_init {c : Nat} {s : Queue} (h : init c = some s) :
-    Inv s [] ∧ s.mem.cells.length = 0 := by
-  have hm : MInv emptyMem [] := by
-    refine ⟨⟨by simp [path, ids], ?_⟩, by simp⟩
-    simp [path, ids, Link.Links, nxt, prv, DMem.get, emptyMem]
-  unfold init at h
-  split at h
-  · split at h
-    · simp at h
-    · injection h with h; subst h; exact ⟨⟨hm, rfl, by simp⟩, rfl⟩
-  · injection h with h; subst h; exact ⟨⟨hm, rfl, by simp⟩, rfl⟩
-
 /-- **C11, queue.** A queue created by `muggle_queue_init`, with or without node
 pool, is a FIFO: every history of enqueue / dequeue / front / clear returns exactly
 the reference answers (front element, callback data, both traversals, size). -/
@@ -576,29 +535,6 @@ theorem remove_spec {s : PS} {l : Spec} (inv : Inv s l) (idx : Nat) :
   obtain ⟨A, F, fl, pinv⟩ := inv
   obtain ⟨s', F', fl', hs, pinv', hcap⟩ := remove_refines pinv idx
   exact ⟨s', hs, ⟨_, _, _, pinv'⟩, hcap⟩
-
-theorem specLive_filter (l : Spec) (idx : Nat) :
-    specLive (l.filter (fun a => a.1 ≠ idx)) idx = false := by
-  cases h : specLive (l.filter (fun a => a.1 ≠ idx)) idx with
-  | false => rfl
-  | true =>
-    have := (specLive_iff _ _).mp h
-    simp only [idxs, List.mem_map, List.mem_filter] at this
-    obtain ⟨e, ⟨_, he⟩, rfl⟩ := this
-    simp at he
-
-/-- on the reference side a second removal of the same index is refused -/
-theorem specRemove_twice (cap : Nat) (l : Spec) (idx : Nat) :
-    specRemove cap (specRemove cap l idx).1 idx =
-      ((specRemove cap l idx).1, if idx ≥ cap then .beyondRange else .dupFree) := by
-  by_cases hge : idx ≥ cap
-  · simp [specRemove, hge]
-  · by_cases hl : specLive l idx = true
-    · have hf := specLive_filter l idx
-      simp only [specRemove, hge, if_false, hl, if_true, hf]
-      simp
-    · have hl' : specLive l idx = false := by simpa using hl
-      simp [specRemove, hge, hl']
 
 /-- a second removal of the same index is refused and changes nothing -/
 theorem double_remove_refused {s : PS} {l : Spec} (inv : Inv s l) (idx : Nat) :
